@@ -130,7 +130,25 @@ def worker(spec):
         fac = build_target(tid)
         entry = {'target': tid, 'runs': []}
         try:
-            if spec.get('same_object', 0) > 1:
+            if spec.get('mutate'):
+                # serialise, THEN declare one more axiom / claim / proof, serialise again: must equal what a module that was
+                # never serialised gives after the same declarations ('what was serialised before' includes this object itself)
+                def grow(m):
+                    from . import bridge
+                    P = bridge.P
+                    x = P.App(P.Symbol('late'), P.App(P.Symbol('late'), P.Symbol('a')))
+                    m.add_axiom(x)
+                    if type(m).execute_proofs_phase is __import__('proof_generation.proof', fromlist=['ProofExp']).ProofExp.execute_proofs_phase:
+                        m.add_claim(x)
+                        m.add_proof_expression(m.load_axiom(x))
+                for opt in (False, True):
+                    used = fac()
+                    digests_of(used, opt)
+                    grow(used)
+                    fresh = fac()
+                    grow(fresh)
+                    entry['runs'].append({'optimize': opt, 'digests': digests_of(used, opt), 'fresh': digests_of(fresh, opt)})
+            elif spec.get('same_object', 0) > 1:
                 for opt in (False, True):
                     obj = fac()
                     for _ in range(spec['same_object']):
@@ -221,9 +239,12 @@ def main(argv=None) -> int:
     for t in T:
         work.append(({'sequence': [t], 'same_object': 3}, 0))
         work.append(({'sequence': [t], 'same_object': 3}, seeds[-1]))
+    for t in T:
+        if t.split(':')[0] in ('shipped', 'graph', 'nested', 'expr'):
+            work.append(({'sequence': [t], 'mutate': True}, 0))
     for spec, seed, data, err in par.pmap(run_spec, work):
         agg['configurations'] = agg.get('configurations', 0) + 1
-        kind = 'same_object' if spec.get('same_object') else ('history' if len(spec['sequence']) > 1 else 'hashseed')
+        kind = 'grown_after_serialising' if spec.get('mutate') else 'same_object' if spec.get('same_object') else ('history' if len(spec['sequence']) > 1 else 'hashseed')
         if data is None:
             chk.violation({'kind': 'worker_crash', 'config': kind}, {'spec': spec, 'seed': seed}, f'{spec} under seed {seed}: {err}')
             continue
@@ -235,6 +256,15 @@ def main(argv=None) -> int:
                 continue
             for r in entry['runs']:
                 agg['outputs_compared'] = agg.get('outputs_compared', 0) + 1
+                if 'fresh' in r:
+                    if r['digests'] != r['fresh']:
+                        diff = [k for k in r['digests'] if r['digests'][k] != r['fresh'].get(k)]
+                        chk.violation({'kind': 'output_differs', 'config': kind, 'target_kind': t.split(':')[0], 'files': diff[:2]},
+                                      {'spec': spec, 'seed': seed},
+                                      f'{t} (optimize={r["optimize"]}): serialised, extended by an axiom/claim/proof and serialised again gives other '
+                                      f'files {diff} than a never-serialised module with the same declarations')
+                        break
+                    continue
                 if r['digests'] != base[t][r['optimize']]:
                     diff = [k for k in r['digests'] if r['digests'][k] != base[t][r['optimize']].get(k)]
                     chk.violation({'kind': 'output_differs', 'config': kind, 'target_kind': t.split(':')[0], 'files': diff[:2]},
